@@ -18,7 +18,7 @@ ASSUME = [
 
 def corpus(tier, seed):
     items = []
-    nls = netlist.g2_shapes() + netlist.g1_primitives()[::7] + netlist.g3_random(seed, 12 if tier == 'quick' else 120, max_gates=8)
+    nls = netlist.g2_shapes() + netlist.g1_primitives()[::7] + netlist.g3_random(seed, 12 if tier == 'quick' else 250, max_gates=8 if tier == 'quick' else 12)
     for j, nl in enumerate(nls):
         style = ('verilog', 'bench', 'lean')[j % 3]
         nlines = len(netlist.build(nl, style).lines) + 1
